@@ -13,6 +13,12 @@ Tie to the code (model: coq/theories/Artifact.v, theorems: coq/props/C19.v):
                   model must reproduce every observation (key lists as multisets, loaded values as content ids).
   stream `filt` : a table written through Artifact.write and loaded through Artifact(path, filter_terms).load;
                   observed: which stored rows come back, and (draw filter `draw == n` / `draw in [...]`) which columns.
+Aliasing: after every write / replace the harness MUTATES the object it handed over (lists grow, dicts get keys - nested
+too -, frames get other cells and a new column); the expected value is the deep copy taken at write time (for JSON data its
+json round-trip: tuples and nested tuples come back as lists, through the writing handle as through any other).  Objects
+RETURNED by load are mutated likewise (60% of the loads) once the aliasing of loaded values - Artifact.load hands out the
+cached object itself, corpus/C19/pending/loaded_object_aliasing.py - is listed in known_findings.json under ALIAS_ID
+(open: KNOWN-FINDING via finding_of_ops; fixed: regression guard) or with VERIF_C19_LOAD_ALIAS=1.
 Direct oracle (independent of the model): a plain python dict key -> last written value; after every operation
 keys == reserved + dict keys (no duplicates) == file keys == second artifact's keys, every load == dict value
 (canonical form: frames with index names / index values / columns / dtypes / cells, JSON values by their JSON text),
@@ -31,6 +37,7 @@ key removed / refused and then its two-part prefix written), so a regression of 
 7b352a55 - fails the oracle: a write for which the property lists no rejection reason must be ACCEPTED.
 """
 import atexit
+import copy
 import json
 import math
 import os
@@ -131,9 +138,18 @@ def build(spec):
     if t == "none":
         return None
     if t == "json":
-        return spec["v"]
+        return copy.deepcopy(spec["v"])          # the harness mutates what it hands over: never the case itself
     if t == "tuple":
         return tuple(spec["v"])
+    if t == "nested_tuple":          # tuples at several depths, inside lists and dicts: JSON gives lists back
+        def tup(x, d=0):
+            if isinstance(x, list):
+                y = [tup(e, d + 1) for e in x]
+                return tuple(y) if d % 2 == 0 else y
+            if isinstance(x, dict):
+                return {k: tup(e, d) for k, e in x.items()}
+            return x
+        return tup(spec["v"])
     if t == "intkeys":
         return {int(k): v for k, v in spec["v"].items()}
     if t == "unser":
@@ -261,6 +277,8 @@ def gen_good_data(rng):
         return {"t": "series", "names": names, "index": tuples, "name": rng.choice(["value", None, "x", "count"]),
                 "values": [rng.choice([0.0, 1.5, -2.0]) for _ in tuples]}
     if r < 0.57:
+        if rng.random() < 0.5:
+            return {"t": "nested_tuple", "v": rng.choice([[1, [2, [3, 4]], {"a": [5, [6]]}], {"k": [1, [2, 3]], "l": []}, [[["x"]], [0.5, [True]]]])}
         return {"t": "tuple", "v": [gen_json(rng, 2) for _ in range(rng.randint(0, 3))]}
     if r < 0.61:
         return {"t": "intkeys", "v": {str(rng.randint(0, 3)): gen_json(rng, 2) for _ in range(rng.randint(1, 2))}}
@@ -648,6 +666,12 @@ REPAIRED_CASES = [
              {"op": "reopen", "f": 2}, {"op": "load", "key": "cause.flu.incidence"}, {"op": "load", "key": "cause.flu.structure"},
              {"op": "reopen", "f": 3}, {"op": "load", "key": "cause.flu.prevalence"}, {"op": "load", "key": "cause.flu.structure"},
              {"op": "load", "key": "cause.flu.incidence"}], "obs_seed": 14},
+    # the store holds values: the caller mutates what it wrote (always) and what it loaded (see load_mutation_mode)
+    {"ops": [{"op": "write", "key": "pop.structure", "data": {"t": "json", "v": {"a": [1, 2], "b": {"c": []}}}}, {"op": "load", "key": "pop.structure"},
+             {"op": "load", "key": "pop.structure"}, {"op": "write", "key": "pop.theta", "data": {"t": "nested_tuple", "v": [1, [2, [3, 4]], {"a": [5, [6]]}]}},
+             {"op": "load", "key": "pop.theta"}, {"op": "replace", "key": "pop.structure", "data": FRAME12}, {"op": "load", "key": "pop.structure"},
+             {"op": "load", "key": "pop.structure"}, {"op": "reopen"}, {"op": "load", "key": "pop.structure"}, {"op": "load", "key": "pop.theta"}],
+     "obs_seed": 15},
     # d4f70230: an empty group /t/n left behind must not block the JSON write of t.n
     {"ops": [{"op": "write", "key": "t.n.m", "data": {"t": "json", "v": [1]}}, {"op": "remove", "key": "t.n.m"},
              {"op": "write", "key": "t.n", "data": {"t": "json", "v": [2]}}, {"op": "load", "key": "t.n"}], "obs_seed": 6},
@@ -688,6 +712,53 @@ def corpus_ops():
 # ----------------------------------------------------------------------------------------------------------------
 # running an operation sequence
 # ----------------------------------------------------------------------------------------------------------------
+ALIAS_ID = "F-AL"       # loads hand out the cached object itself: mutating a loaded value changes later loads (same handle)
+
+
+def load_mutation_mode():
+    """Mutating LOADED objects is part of the generator once the aliasing of loaded values is listed in known_findings.json
+    (open: reported as KNOWN-FINDING; fixed: a regression guard) or when VERIF_C19_LOAD_ALIAS=1; objects handed to write /
+    replace are mutated always."""
+    if os.environ.get("VERIF_C19_LOAD_ALIAS"):
+        return True
+    try:
+        import core
+        return any(f["id"] == ALIAS_ID and PROPERTY in f["properties"] for f in core._findings())
+    except Exception:
+        return False
+
+
+def mutate(obj, depth=0):
+    """change a value IN PLACE, the way a careless caller would (lists grow, dicts get keys, frames get other cells and a
+    new column); immutable values and tuples are left (their mutable contents are not)"""
+    import pandas as pd
+    try:
+        if isinstance(obj, pd.DataFrame):
+            if len(obj.index) and len(obj.columns):
+                c = obj.columns[0]
+                obj.iloc[0, 0] = (not obj.iloc[0, 0]) if obj[c].dtype == bool else (
+                    obj.iloc[0, 0] + 1 if pd.api.types.is_numeric_dtype(obj[c].dtype) else "MUT")
+            obj["MUT"] = 0
+        elif isinstance(obj, pd.Series):
+            if len(obj) and pd.api.types.is_numeric_dtype(obj.dtype):
+                obj.iloc[0] = obj.iloc[0] + 1
+        elif isinstance(obj, list):
+            if depth < 2:
+                for x in obj[:1]:
+                    mutate(x, depth + 1)
+            obj.append("MUT")
+        elif isinstance(obj, dict):
+            if depth < 2:
+                for x in list(obj.values())[:1]:
+                    mutate(x, depth + 1)
+            obj["MUT"] = 1
+        elif isinstance(obj, tuple) and depth < 2:
+            for x in obj[:2]:
+                mutate(x, depth + 1)
+    except Exception:
+        pass
+
+
 class Interner:
     def __init__(self, first=1):
         self.ids, self.next = {}, first
@@ -745,10 +816,14 @@ def run_ops(case):
     rtj = {}
     ok, msg = True, ""
 
-    def fail(m):
+    def fail(m, cls="other"):
         nonlocal ok, msg
-        if ok:
+        classes.append(cls)
+        if ok or (cls == "other" and classes.count("other") == 1):
             ok, msg = False, m
+    mutate_loads = load_mutation_mode()
+    tainted = set()         # keys of which a LOADED object was mutated in place (handle not re-opened / cleared since)
+    classes = []            # class of every oracle failure
     filters = [None] + list(case.get("filters") or [])
     cur_f = 0               # index of the filter the handle `a` was opened with (0 = none)
     frames = {}             # content id -> frame ever given to write / replace (for the filters' effect table)
@@ -774,7 +849,7 @@ def run_ops(case):
                 if dk in "FJ":
                     cid = content(canon(value))
                     if dk == "F":
-                        frames[cid] = value
+                        frames[cid] = value.copy(deep=True)
                     if dk == "J":
                         rtj[cid] = content(canon(json.loads(json.dumps(value))))
                     d_coq = f"(DFrame {cz(cid)})" if dk == "F" else f"(DJson {cz(cid)})"
@@ -808,12 +883,21 @@ def run_ops(case):
                      f"listed rejection reasons applies (keys present: {sorted(ref)})")
             if not rejected:
                 if kind in ("write", "replace"):
-                    ref_val[k] = json.loads(json.dumps(value)) if kind_of(op["data"]) == "J" else value
+                    # the store holds VALUES: what must come back is the value as it was when written (a deep copy taken
+                    # now; for JSON data its json round-trip - tuples come back as lists), whatever the caller does next
+                    ref_val[k] = json.loads(json.dumps(value)) if kind_of(op["data"]) == "J" else value.copy(deep=True)
                     ref[k] = canon(ref_val[k])
                     accepted_writes += kind == "write"
+                    tainted.discard(k)
                 elif kind == "remove":
                     ref.pop(k, None)
                     ref_val.pop(k, None)
+            if "data" in op and kind_of(op["data"]) in "FJ":
+                mutate(value)                      # the caller goes on using - and changing - the object it handed over
+            if kind in ("clear", "reopen") and not rejected:
+                tainted.clear()
+            if kind == "remove" and not rejected:
+                tainted.discard(k)
             loaded_id = None
             if kind == "load" and not rejected and k != RESERVED:
                 loaded_id = content(canon_h(loaded, filters[cur_f]))
@@ -823,7 +907,12 @@ def run_ops(case):
                     want_l = canon_h(apply_filter(ref_val[k], filters[cur_f]), filters[cur_f])
                     if canon_h(loaded, filters[cur_f]) != want_l:
                         fail(f"step {step_no}: load({k!r}) through a handle with filter terms {filter_strings(filters[cur_f])} returned "
-                             f"{canon(loaded)[:200]}; last written {ref[k][:200]}; expected through the filter {want_l[:200]}")
+                             f"{canon(loaded)[:200]}; last written {ref[k][:200]}; expected through the filter {want_l[:200]}"
+                             + (" [an object returned by an earlier load of this key was mutated in place]" if k in tainted else ""),
+                             "alias_load" if k in tainted else "other")
+                if mutate_loads and rng.random() < 0.6:
+                    mutate(loaded)                 # ... and changes what it was given back
+                    tainted.add(k)
             # ---- observations ----
             keys1 = [str(x) for x in a.keys]
             filekeys = [str(x) for x in hdf.get_keys(path)]
@@ -902,8 +991,20 @@ def run_ops(case):
     tags.add("filtered_handles" if len(filters) > 1 else "unfiltered_handle")
     if vt:
         tags.add("filter_bites")
+    tags.add("loads_mutated" if mutate_loads else "loads_not_mutated")
     return Result(ok=ok, msg=msg, coq=coq, key=json.dumps(case, sort_keys=True) if accepted_writes else None,
-                  obs={"trace": trace[-12:]}, tags=tuple(sorted(tags)) + (f"len{min(n_ops, 25) // 5 * 5}",))
+                  obs={"trace": trace[-12:], "failure_classes": sorted(set(classes)), "tainted": sorted(tainted)},
+                  tags=tuple(sorted(tags)) + (f"len{min(n_ops, 25) // 5 * 5}",))
+
+
+def finding_of_ops(case, res):
+    """F-AL: the only thing wrong is a same-handle load of a key of which an earlier LOADED object was mutated in place (for a
+    model / implementation disagreement: some loaded object of the case was mutated and the oracle saw nothing else)"""
+    obs = res.obs or {}
+    cl = obs.get("failure_classes") or []
+    if cl:
+        return ALIAS_ID if set(cl) == {"alias_load"} else None
+    return ALIAS_ID if obs.get("tainted") else None
 
 
 # ----------------------------------------------------------------------------------------------------------------
@@ -1131,8 +1232,8 @@ def shrink_filt(case):
 def streams(tier):
     return [
         Stream(name="ops", imports="From Viv Require Import Common Artifact.", check="check_ops",
-               gen=gen_ops_quick if tier == "quick" else gen_ops_thorough, run=run_ops, n_quick=70, n_thorough=260,
-               corpus=corpus_ops, shrink=shrink_ops,
+               gen=gen_ops_quick if tier == "quick" else gen_ops_thorough, run=run_ops, n_quick=60, n_thorough=260,
+               corpus=corpus_ops, shrink=shrink_ops, finding_of=finding_of_ops,
                doc="operation sequences on real HDF files, observed after every operation"),
         Stream(name="filt", imports="From Viv Require Import Common Artifact.", check="check_filt", gen=gen_filt,
                run=run_filt, n_quick=60, n_thorough=240, corpus=corpus_filt, shrink=shrink_filt,
